@@ -9,7 +9,7 @@ CONSTANTS
   PV = {1, 3}
   MinV = {3}
   MaxV = {1, 3}
-  Pairs = {13, 31, 33}
+  Pairs = {13, 31}
   APairs = {31}
   Depth = 5
 CONSTRAINT Bound
